@@ -1,4 +1,45 @@
 import TsRsVerif.Model.TsWitness
+import TsRsVerif.Model.TsEval
+import TsRsVerif.Lemmas.MemberbSound
+/-!
+# C02 — every inhabitant of the generated TypeScript type deserializes
+
+C02 speaks about serde's `Deserialize`, which is decided on the IMPLEMENTATION: the check enumerates
+JSON witnesses of the real declarations (`Ts.witnesses`) and near-miss mutants of real samples,
+keeps those the sound membership test accepts, and feeds them to the real `serde_json::from_str`.
+Proven here is the part that makes a rejection a genuine counter-example: every candidate that is
+kept IS a member of the declared type in the formal semantics (`C02_kept_candidates_are_members`).
+A `de` model with a completeness theorem is not built (see DESIGN.md, C02 is PARTIAL).
+-/
 namespace TsRs
-theorem C02_placeholder : True := trivial
+open Text Ts
+
+/-- the filter the check applies to candidate witnesses -/
+def keep (D : Decls) (t : Ts) (cands : List JVal) : List JVal := cands.filter fun j => memberb D 60 t j
+
+/-- **every kept candidate inhabits the declared type** — so when serde rejects one, the declared
+type really is wider than what the backend accepts -/
+theorem C02_kept_candidates_are_members (D : Decls) (t : Ts) (cands : List JVal) :
+    ∀ j ∈ keep D t cands, Member D t j := by
+  intro j hj
+  exact memberb_sound D 60 t j (by simpa [keep] using (List.mem_filter.mp hj).2)
+
+/-- the enumerated witnesses of a union include witnesses of each arm that has any (each arm is
+tried: this is what makes a superfluous or mis-tagged arm visible) -/
+theorem C02_union_arms_enumerated (D : Decls) (cap f : Nat) (xs : List Ts) (w : JVal)
+    (h : w ∈ witnesses D cap (f + 1) (.union xs)) : ∃ x ∈ xs, w ∈ witnesses D cap f x := by
+  simp only [witnesses, capList] at h
+  have h1 := List.mem_of_mem_take h
+  rw [List.mem_flatMap] at h1
+  obtain ⟨x, hx, hw⟩ := h1
+  exact ⟨x, hx, List.mem_of_mem_take hw⟩
+
+/-! ## non-vacuity -/
+example : JVal.beqList (witnesses [] 24 10 (.union [.obj [({ name := "t".toList }, .lit "A".toList)],
+      .obj [({ name := "t".toList }, .lit "B".toList), ({ name := "c".toList, optional := true }, .array .bigint)]]))
+    [.obj [("t".toList, .str "A".toList)],
+       .obj [("t".toList, .str "B".toList), ("c".toList, .arr [])],
+       .obj [("t".toList, .str "B".toList), ("c".toList, .arr [.int 1])],
+       .obj [("t".toList, .str "B".toList)]] = true := by decide +kernel
+
 end TsRs
